@@ -21,7 +21,6 @@ from tqdm.auto import tqdm
 
 from pyxel.calibration import Algorithm, IslandProtocol
 from pyxel.calibration.fitting_datatree import ModelFittingDataTree
-from pyxel.calibration.util import slice_to_range
 
 if TYPE_CHECKING:
     import pygmo as pg
@@ -325,8 +324,6 @@ class ArchipelagoDataTree:
 
         # Get the target data
         if self.problem.sim_fit_range is not None:
-            slice_times, slice_rows, slice_cols = self.problem.sim_fit_range.to_slices()
-
             sim_fit_range_dct: dict[str, slice] = dict(
                 self.problem.sim_fit_range.to_dict()
             )
@@ -335,21 +332,17 @@ class ArchipelagoDataTree:
                 del sim_fit_range_dct["time"]
 
             all_data_fit_range = all_simulated_full.isel(indexers=sim_fit_range_dct)
-            if readout.time_domain_simulation:
-                # TODO: Refactoring like this:
-                #       all_data_fit_range["target"] = self.problem.all_target_data
-                all_data_fit_range["target"] = xr.DataArray(
-                    self.problem.all_target_data,
-                    dims=["processor", "readout_time", "y", "x"],
-                    coords={
-                        "processor": range(len(self.problem.all_target_data)),
-                        "readout_time": slice_to_range(slice_times),
-                        "y": slice_to_range(slice_rows),
-                        "x": slice_to_range(slice_cols),
-                    },
-                )
-            else:
-                all_data_fit_range["target"] = self.problem.all_target_data
+
+            # The target region has the same extent as the simulated region but it can be
+            # located at another position: it gets the coordinates of the simulated region
+            target: xr.DataArray = self.problem.all_target_data
+            all_data_fit_range["target"] = target.assign_coords(
+                {
+                    dim: all_data_fit_range[dim].to_numpy()
+                    for dim in ("readout_time", "y", "x")
+                    if dim in target.dims
+                }
+            )
 
         else:
             all_data_fit_range = all_simulated_full
